@@ -142,7 +142,7 @@ class C06(Prop):
     harness = "h_ssi.c"
     theorems = ["EaselModel.Props.C06." + t for t in (
         "codec_roundtrip", "codec_bigendian", "bsearch_correct", "write_spec", "write_ok_iff_distinct", "write_dup_no_file",
-        "written_file", "open_written", "findName_stored", "findName_alias_partial", "findName_absent", "findNumber_sorted",
+        "written_file", "open_written", "open_rejects", "findName_stored", "findName_alias_partial", "findName_absent", "findNumber_sorted",
         "fileInfo_spec", "internal_eq_external", "auto_switch_trigger", "external_is_permanent", "history_write", "history_index_correct", "history_alias_partial", "history_enumeration", "findSubseq_spec", "findSubseq_erange", "exCross_wf",
         "cross_class_duplicate_accepted")]
     claimed = True
